@@ -19,7 +19,7 @@ def nontrivial(s):
     return False
 
 
-def sig(scen, kind, detail):
+def sig(scen, kind, detail, rec=None):
     return {"family": "dns", "kind": kind, "cls": "fault" if "fault" in scen else "edit"}
 
 
